@@ -963,7 +963,7 @@ func describe(v verdict) (kind, what string) {
 	}
 }
 
-func reportFailure(c *vh.Ctx, drv *vh.Driver, name string, ops []op) {
+func reportFailure(c *vh.Ctx, drv *vh.Driver, name string, ops []op) bool {
 	ls := lines(ops)
 	// shrink towards the strongest symptom present: a violation of the property itself on the real code,
 	// else a disagreement between the real code and the model
@@ -988,7 +988,15 @@ func reportFailure(c *vh.Ctx, drv *vh.Driver, name string, ops []op) {
 		}
 	}
 	v := runCase(drv, os)
+	if !v.fails() {
+		// the shrunk history does not fail when run once more: report the unshrunk one, or nothing if that is quiet too
+		shr, os = ls, ops
+		v = runCase(drv, os)
+	}
 	kind, what := describe(v)
+	if !v.fails() || what == "" {
+		return false
+	}
 	hdr := []string{kind + ": " + what, "ops below are the shrunk history; answers of the real code (go) and of the model (lean) follow as comments"}
 	for i := range v.goResp {
 		hdr = append(hdr, fmt.Sprintf("  op %d go:   %s", i, v.goResp[i]))
@@ -998,6 +1006,7 @@ func reportFailure(c *vh.Ctx, drv *vh.Driver, name string, ops []op) {
 	}
 	rp := vh.WriteReplay(c.ReplayDir, "C02", name, c.Seed, hdr, shr)
 	c.Res.Fail(kind, "", what, rp)
+	return true
 }
 
 func run(c *vh.Ctx) error {
@@ -1012,7 +1021,43 @@ func run(c *vh.Ctx) error {
 			return err
 		}
 		drv = d
-		defer drv.Close()
+		defer func() { drv.Close() }()
+	}
+	// A failure is reported only if it has a reason and happens again when the same history is run again.
+	// A driver I/O error is a harness error: the driver is restarted and the history run once more; if that fails
+	// too the run is aborted as a broken harness (not as a violation of the property).
+	var transient []string
+	confirm := func(name string, ops []op, v verdict) (verdict, bool, error) {
+		if v.harness != "" {
+			if drv != nil {
+				drv.Close()
+				d, err := vh.StartDriver(c.Driver)
+				if err != nil {
+					return v, false, err
+				}
+				drv = d
+			}
+			first := v.harness
+			v = runCase(drv, ops)
+			if v.harness != "" {
+				return v, false, fmt.Errorf("harness error in %s, twice: %s / %s", name, first, v.harness)
+			}
+			res.Dist("harness-error-retried")
+			if !v.fails() {
+				return v, false, nil
+			}
+		}
+		_, what := describe(v)
+		for try := 0; try < 2; try++ {
+			if v2 := runCase(drv, ops); v2.fails() && v2.harness == "" {
+				return v2, true, nil
+			}
+		}
+		res.Dist("nonreproducible-disagreement")
+		if len(transient) < 5 {
+			transient = append(transient, name+": "+what)
+		}
+		return v, false, nil
 	}
 	// corpus first: witnesses of the repaired defects must stay quiet
 	for _, f := range vh.CorpusFiles("C02") {
@@ -1022,6 +1067,16 @@ func run(c *vh.Ctx) error {
 		}
 		still, what := replayWith(drv, body, comments)
 		res.Dist("corpus")
+		if still {
+			// must fail again to count
+			if again, what2 := replayWith(drv, body, comments); !again {
+				res.Dist("nonreproducible-disagreement")
+				transient = append(transient, "corpus "+f+": "+what)
+				still = false
+			} else {
+				what = what2
+			}
+		}
 		if still {
 			res.Fail("corpus", "", "corpus witness fails again: "+f+": "+what, f)
 		}
@@ -1062,13 +1117,17 @@ func run(c *vh.Ctx) error {
 			res.Sample(map[string]interface{}{"ops": lines(ops), "go": v.goResp})
 		}
 		if v.fails() {
+			v2, again, err := confirm(fmt.Sprintf("case-%d", ci), ops, v)
+			if err != nil {
+				return err
+			}
 			// report the first few of each class (a property violation must not be crowded out by model disagreements)
-			if v.oracle != "" {
+			if again && v2.oracle != "" {
 				oracleFailures++
 				if oracleFailures <= 3 {
 					reportFailure(c, drv, fmt.Sprintf("case-%d", ci), ops)
 				}
-			} else {
+			} else if again {
 				failures++
 				if failures <= 3 {
 					reportFailure(c, drv, fmt.Sprintf("case-%d", ci), ops)
@@ -1094,18 +1153,29 @@ func run(c *vh.Ctx) error {
 			res.Sample(map[string]interface{}{"server_driven_ops": lines(ops), "go": v.goResp})
 		}
 		if v.fails() {
-			if v.oracle != "" {
-				oracleFailures++
-			} else {
-				failures++
+			v2, again, err := confirm(fmt.Sprintf("server-case-%d", ci), ops, v)
+			if err != nil {
+				return err
 			}
-			if oracleFailures+failures <= 6 {
-				reportFailure(c, drv, fmt.Sprintf("server-case-%d", ci), ops)
+			if again {
+				if v2.oracle != "" {
+					oracleFailures++
+				} else {
+					failures++
+				}
+				if oracleFailures+failures <= 6 {
+					reportFailure(c, drv, fmt.Sprintf("server-case-%d", ci), ops)
+				}
 			}
 		}
 	}
 	// write-fault stream: first lives in child processes on LevelDB with a failing Put (fault.go)
-	runFaultStream(c, drv)
+	if err := runFaultStream(c, drv, &transient); err != nil {
+		return err
+	}
+	if len(transient) > 0 {
+		res.Extra["nonreproducible_disagreements_not_reported"] = transient
+	}
 	res.Extra["server_driven_histories"] = nServer
 	res.Extra["server_lowered_round_index_in"] = loweredCases
 	res.Partial = append(res.Partial,
